@@ -2,5 +2,7 @@
 # offline build of the Lean library (model, theory, property theorems) and the model driver
 set -e
 DIR="$(cd "$(dirname "$0")" && pwd)"
+# data regenerated from /repo's working tree (also done by every check)
+/venv/bin/python "$DIR/harness/regen.py" >/dev/null
 cd "$DIR/lean"
 lake build driver ChipFiring.AuditCmd ChipFiring.Properties
